@@ -6,7 +6,7 @@ TYPES = [(r'^nano::base_datasource_iterator_t$', 'struct nv_iter'),
          (r'^nano::mask_c?map_t$|tensor_t<nano::tensor_c?m?array_storage_t, unsigned char, 1>', 'struct nv_mask'),
          (r'^nano::indices_cmap_t$|tensor_t<nano::tensor_carray_storage_t, long, 1>', 'struct nv_t1i')]
 # element access of a rank-1 tensor map: t(i) -> t.p[i]  (CBMC's pointer checks then prove every real index in bounds)
-ELEM = [(r'^operator\(\)\|typename tbase::t(const)?ref \(const nano::tensor_size_t\)', '{0}.p[{1}]')]
+ELEM = [(r'^operator\(\)\|typename tbase::t(const|mutable)?ref \(const nano::tensor_size_t\)', '{0}.p[{1}]')]
 DRV = 'drivers/inst_c08.cpp'
 MASK_TU = 'src/datasource/mask.cpp'   # includes include/nano/datasource/mask.h
 
@@ -287,9 +287,9 @@ def select_fns(kind):
                               (r'^byfeature\|nano::dataset_t', '(*dataset_byfeature({self}, {0}))!'),
                               (r'^select\|nano::generator_t \*', 'nv_generator_select!')], **common)
     chk = Fn('dataset_check_samples', tu, 'check', flt='nano::dataset_t::', select=lambda d: 'indices_cmap_t' in astload.param_types(d)[0],
-             members=[(r'^min\|nano::tensor_t<nano::tensor_carray_storage_t, long, 1>', 'nv_t1i_min_rec'),
-                      (r'^max\|nano::tensor_t<nano::tensor_carray_storage_t, long, 1>', 'nv_t1i_max_rec'),
-                      (r'^samples\|nano::datasource_t', 'datasource_samples')], **common)
+             calls=ELEM, members=SIZE1 + [(r'^min\|nano::tensor_t<nano::tensor_carray_storage_t, long, 1>', 'nv_t1i_min'),
+                                          (r'^max\|nano::tensor_t<nano::tensor_carray_storage_t, long, 1>', 'nv_t1i_max'),
+                                          (r'^samples\|nano::datasource_t', 'datasource_samples')], **common)
     _, chk_f, byf, feats, dss = dataset_fns()
     return [sel, chk, dss, byf, chk_f, feats]
 
@@ -700,7 +700,7 @@ def build(tier):
     for kind in ('scalar', 'sclass', 'mclass', 'struct'):
         targets.append(Target('gen_select_' + kind, gen_fns(['select_' + kind, 'should_drop']), GEN_H))
     for kind in ('sclass', 'mclass', 'scalar', 'struct'):
-        targets.append(Target('dataset_select_' + kind, select_fns(kind), SEL_H, replace=['dataset_byfeature']))
+        targets.append(Target('dataset_select_' + kind, select_fns(kind), SEL_H, replace=['dataset_byfeature', 'dataset_check_samples']))
     return {
         'targets': targets, 'vcs': [],
         'decided': [
@@ -772,6 +772,11 @@ def replay(rp):
         if not cands:
             cands = [(16, 16), (13, 13)]
         runs = [[n, idx] for n, idx in dict.fromkeys(cands)]
+        # the same entry inside an unsorted list (valid first and last entries)
+        runs += [['list', n, 0, idx, max(0, min(3, n - 1))] for n, idx in list(dict.fromkeys(cands))[:2] if n >= 1]
+        # ... and the boundary values of the property's quantifier (N, -1) in the middle / at the front of an unsorted list
+        n0 = next((n for n, _ in cands if 4 <= n <= 2000000), 16)
+        runs += [['list', n0, 0, n0, 3], ['list', n0, 3, -1, 0], ['list', n0, n0, 0, 1]]
     elif t.startswith('datasource_storage'):
         classes = []
         for fo in rp['failed_obligations']:
@@ -788,6 +793,10 @@ def replay(rp):
         runs = [['product']]
     elif t.startswith('gen_'):
         runs = [['flags']]
+    elif t in ('dataset_check_feature', 'dataset_byfeature'):
+        runs = [['feature', 2], ['feature', -1], ['feature', 3]]      # the driver's dataset has 2 features
+    elif t == 'flatten_sclass_u8':
+        runs = [['onehot']]
     else:
         out['note'] = 'no native driver for this target: the replay file carries the verifier output only'
         return out
